@@ -4,7 +4,7 @@ any history of queries and reassignments; selection returns exactly the selected
 Engine E1 (histories): one world per grid kind -- plain Grid with 1-D / 2-D / 3-D points,
 a OneDGrid subclass, AngularGrid, AtomGrid (off-origin centre), MolGrid, Tensor1DGrids,
 UniformGrid, LocalGrid, PeriodicGrid without lattice vectors.  Events: Q(centre, radius) for
-3 centres x radii {0, tiny, medium, huge, inf}; SP(k): ``grid.points = P_k``; SW(k):
+4 centres (a grid point, generic inside, far away, just outside the bounding box) x radii {0, tiny, medium, wider-than-the-grid, huge, inf}; SP(k): ``grid.points = P_k``; SW(k):
 ``grid.weights = W_k`` (k = 1, 2).  Reference model = the arrays the model last assigned.
 Oracle after every Q: index set == brute force {i : |p_i - c| <= r} on the *current* points,
 each once; local points/weights == parent[indices]; centre echoed; inf => whole grid; empty =>
@@ -40,7 +40,9 @@ ASSUMPTIONS = [
 
 KINDS = ("grid1d", "grid2d", "grid3d", "oned", "angular", "atom", "mol", "tensor", "uniform",
          "local", "periodic0", "periodic0_1d")
-RADII = (0.0, 1e-9, 0.9, 1e3, float("inf"))
+# 5.0 exceeds the extent of every test grid but not the distance of the far centre (an empty
+# sphere that is wider than the grid), 1e3 swallows everything
+RADII = (0.0, 1e-9, 0.9, 5.0, 1e3, float("inf"))
 TIE = 1e-12
 
 
@@ -175,7 +177,9 @@ class World:
         dim = c.shape[1]
         gen = np.array([0.13, -0.21, 0.34])[:dim]
         far = np.array([40.0, 35.0, -50.0])[:dim]
-        self.centres = [c[len(c) // 2].copy(), gen, far]
+        # a centre just outside the bounding box: spheres around it cut the grid partially
+        edge = c.min(axis=0) - np.array([2.1, 0.4, 0.9])[:dim]
+        self.centres = [c[len(c) // 2].copy(), gen, far, edge]
         if p0.ndim == 1:
             self.centres = [np.float64(v[0]) for v in self.centres]
 
@@ -185,7 +189,7 @@ class World:
     def enabled(self):
         if self.grid is None:
             return []
-        evs = [("Q", ci, ri) for ci in range(3) for ri in range(len(RADII))
+        evs = [("Q", ci, ri) for ci in range(len(self.centres)) for ri in range(len(RADII))
                # radius=inf on a PeriodicGrid is the "behaves as the plain grid" clause of C11
                # (checked and reported there), not part of C10's list of grid kinds
                if not (self.kind.startswith("periodic") and RADII[ri] == np.inf)]
